@@ -38,7 +38,7 @@ func (r *Rand) bytes(n int) []byte {
 	}
 	return b
 }
-func (r *Rand) pick(ss []string) string { return ss[r.intn(len(ss))] }
+func (r *Rand) pick(ss []string) string  { return ss[r.intn(len(ss))] }
 func (r *Rand) chance(num, den int) bool { return r.intn(den) < num }
 
 type failure struct {
@@ -66,25 +66,25 @@ type knownFinding struct {
 }
 
 type Ctx struct {
-	prop     string
-	tier     string
-	seed     int64
-	rng      *Rand
-	model    *Model
-	start    time.Time
+	prop       string
+	tier       string
+	seed       int64
+	rng        *Rand
+	model      *Model
+	start      time.Time
 	searchOnly bool
 
-	evals    int
-	distinct map[string]struct{}
-	samples  []interface{}
-	dist     map[string]int
-	corr     map[string]*corrStat
-	failures []failure
-	knownHit map[string]string
-	known    []knownFinding
-	rule     string
+	evals      int
+	distinct   map[string]struct{}
+	samples    []interface{}
+	dist       map[string]int
+	corr       map[string]*corrStat
+	failures   []failure
+	knownHit   map[string]string
+	known      []knownFinding
+	rule       string
 	exhaustive bool
-	notes    []string
+	notes      []string
 }
 
 func newCtx(prop, tier string, seed int64, model *Model) *Ctx {
@@ -184,10 +184,10 @@ func clip(s string) string {
 
 type coqInfo struct {
 	Theorems   []struct{ Name, Assumptions string } `json:"theorems"`
-	Files      []string                              `json:"files"`
-	CheckerCmd string                                `json:"checker_cmd"`
-	Closed     int                                   `json:"closed"`
-	Axioms     []string                              `json:"axioms"`
+	Files      []string                             `json:"files"`
+	CheckerCmd string                               `json:"checker_cmd"`
+	Closed     int                                  `json:"closed"`
+	Axioms     []string                             `json:"axioms"`
 }
 
 func (c *Ctx) finish(ci *coqInfo, evidencePath string) int {
@@ -241,7 +241,7 @@ func (c *Ctx) finish(ci *coqInfo, evidencePath string) int {
 		"violations": oracleFails + corrFails,
 		"assumptions": []string{
 			"the hand-written Gallina model is tied to the Go code only by the correspondence check (differential execution on the cases counted here)",
-			"cryptographic primitives are parameters of the model; the oracle instance answers with Go's crypto libraries",
+			"cryptographic primitives are parameters of the model; the oracle instance answers with Go's crypto libraries; the Gallina instance Crypto.GP (everything but RSA-OAEP) is compared with those libraries by the C01/C02/C05 runs",
 		},
 	}
 	b, _ := json.MarshalIndent(ev, "", " ")
